@@ -3,6 +3,7 @@ mod conn;
 mod cdial;
 mod dialplan;
 mod addrbook;
+mod guard;
 mod notify;
 mod proto;
 
@@ -13,6 +14,7 @@ fn main() {
         "dialplan" => dialplan::main(&a),
         "cdial" => cdial::main(&a),
         "notify" => notify::main(&a),
+        "guard" => guard::main(&a),
         "addr" => addrbook::main(&a),
         "proto" => proto::main(&a),
         m => {
